@@ -24,7 +24,7 @@ from .c01 import summarize
 
 PROP = "C18"
 
-TEXTS = ["plain", "with // slashes", "semi;colon; int 1", 'quo"te', "back\\slash\\", "//", ";", "int 0\treturn", "é漢\U0001F600", " ", "b main_l0",
+TEXTS = ["", "plain", "with // slashes", "semi;colon; int 1", 'quo"te', "back\\slash\\", "//", ";", "int 0\treturn", "é漢\U0001F600", " ", "b main_l0",
          "#pragma version 2", "label:", '"', "\\n", "a\x0bb\x0cc", "a\u2028b", "x\x85y", "trailing\\"]
 MULTILINE = ["two\nlines", "err\nint 0\nreturn", "a\r\nb", "\n", "x\n", "\nerr", "a\rb"]
 
@@ -164,6 +164,11 @@ def node_base_recipes(mode, v):
             if x[0].split(":")[1] in ("split1", "split2", "armfirst1", "armfirst2", "loop", "sub") and len(x[0].split(":")[2]) <= 6]
     if v >= 4:
         out += [x for x in gen_subs.sub_family(mode, v, False) if x[0] in ("sub:fact", "sub:locals1", "sub:byref-inc", "sub:mutual-u-none")]
+    # asserts that already carry a comment (empty, blank, ordinary): annotating them again must not lose them
+    e = Env(mode, v)
+    for nm, txt in (("empty", ""), ("blank", " "), ("text", "fee cap")):
+        out.append(("ctl:assert-comment-%s" % nm, prog(mode, ("Seq", e.tag(1), ("AssertC", txt, ("Bin", "Lt", e.u(1), ("Int", 2000))),
+                                                              ("If", e.u(2), ("AssertC", txt, e.u(3), e.u(4))), ("Return", ("Int", 1)))), {}))
     return out
 
 
@@ -183,7 +188,8 @@ def build_jobs(t, sd, solver_texts):
     jobs = []
     texts = TEXTS + MULTILINE + [x for x in solver_texts if x not in TEXTS and x not in MULTILINE]
     if not thorough:
-        texts = texts[::2] + [x for x in solver_texts][:4]
+        # every text with a line break of some kind, every second of the others, the first solver-chosen ones
+        texts = MULTILINE + TEXTS[::2] + [x for x in solver_texts if x not in MULTILINE][:4]
     for v in ([6, 8] if not thorough else [3, 5, 6, 8, 10]):
         for (name, rec, opts) in base_recipes("A", v):
             for (an, rec2, o2) in annotate_variants(rec, texts):
